@@ -14,13 +14,14 @@ import (
 	"sync"
 	"time"
 
-	"github.com/openGemini/openGemini/lib/util/lifted/hashicorp/serf/serf"
 	"github.com/openGemini/openGemini/lib/config"
 	"github.com/openGemini/openGemini/lib/metaclient"
+	"github.com/openGemini/openGemini/lib/util/lifted/hashicorp/serf/serf"
 	"github.com/openGemini/openGemini/lib/util/lifted/influx/influxql"
 	meta "github.com/openGemini/openGemini/lib/util/lifted/influx/meta"
 	proto2 "github.com/openGemini/openGemini/lib/util/lifted/influx/meta/proto"
 	"github.com/openGemini/openGemini/lib/util/lifted/protobuf/proto"
+	"go.uber.org/zap"
 )
 
 const (
@@ -34,8 +35,8 @@ type MstSpec struct {
 	ShardKey    []string `json:"shard_key"` // sorted, as the parser sorts it; empty = none
 	Type        string   `json:"type"`      // hash | range
 	NumOfShards int32    `json:"num_of_shards,omitempty"`
-	Tags        []string `json:"tags"`   // tag keys points of this measurement may carry
-	Auto        bool     `json:"auto"`   // not created explicitly: the write path creates it
+	Tags        []string `json:"tags"` // tag keys points of this measurement may carry
+	Auto        bool     `json:"auto"` // not created explicitly: the write path creates it
 	AlterKey    []string `json:"alter_key,omitempty"`
 	AlterAfter  int      `json:"alter_after,omitempty"` // ALTER ... SHARDKEY is applied after this many write batches (0 = never)
 }
@@ -43,7 +44,7 @@ type MstSpec struct {
 // Reshard is one RANGE re-sharding step (what ts-meta's balancer applies).
 type Reshard struct {
 	AfterBatch int      `json:"after_batch"`
-	SplitTime  int64    `json:"split_time"`
+	SplitTime  I64      `json:"split_time"`
 	Bounds     []string `json:"bounds"`
 }
 
@@ -58,7 +59,7 @@ type CatSpec struct {
 	Msts        []MstSpec `json:"measurements"`
 	RoundTrip   bool      `json:"round_trip"` // the sql side sees the catalogue after Marshal/Unmarshal (as ts-sql does)
 	Reshards    []Reshard `json:"reshards,omitempty"`
-	PreGroupsAt []int64   `json:"pre_groups_at,omitempty"` // shard groups created before any measurement has ShardIdexes
+	PreGroupsAt []I64     `json:"pre_groups_at,omitempty"` // shard groups created before any measurement has ShardIdexes
 }
 
 func (s *CatSpec) mst(name string) *MstSpec {
@@ -186,6 +187,9 @@ func applyCmd(d *meta.Data, typ proto2.Command_Type, ext *proto.ExtensionDesc, v
 
 // buildCatalogue creates the Data from the spec (everything that exists before the first write).
 func buildCatalogue(s *CatSpec) (*sqlMeta, error) {
+	if meta.DataLogger == nil {
+		meta.DataLogger = zap.NewNop() // ts-meta sets this at start-up
+	}
 	if err := config.SetHaPolicy(s.HaPolicy); err != nil {
 		return nil, err
 	}
@@ -243,7 +247,7 @@ func buildCatalogue(s *CatSpec) (*sqlMeta, error) {
 		}
 	}
 	for _, t := range s.PreGroupsAt {
-		if err := d.CreateShardGroup(dbName, rpName, time.Unix(0, t), 0, config.TSSTORE, 0); err != nil {
+		if err := d.CreateShardGroup(dbName, rpName, time.Unix(0, int64(t)), 0, config.TSSTORE, 0); err != nil {
 			return nil, fmt.Errorf("CreateShardGroup: %w", err)
 		}
 	}
@@ -282,7 +286,7 @@ func (m *sqlMeta) afterBatch(s *CatSpec, n int) error {
 			continue
 		}
 		last := rp.ShardGroups[len(rp.ShardGroups)-1]
-		split := r.SplitTime
+		split := int64(r.SplitTime)
 		if split < 0 {
 			// -k: k quarters into the last shard group (whatever group that is at this moment)
 			split = last.StartTime.UnixNano() + (-split)*(last.EndTime.UnixNano()-last.StartTime.UnixNano())/4
